@@ -44,6 +44,14 @@ func VfC18_Iteration() {
 	for step := 0; step < nh*rounds+1 && !finished; step++ {
 		raw := newRawRequest(newArray(*newBulkString("scan"), *newBulkBytes(cursor), *newBulkString("MATCH"), *newBulkBytes(pat), *newBulkString("COUNT"), *newBulkString("10")))
 		nd.PanicLabel("handleScan")
+		// what the session's writer may read the moment the request is completed (it is woken by
+		// the completion itself)
+		var atCompletion []byte
+		raw.RegisterHook(func(r *rawRequest) {
+			if resp := r.Response(); resp != nil && resp.Type == Array && len(resp.Array) == 2 {
+				atCompletion = append([]byte(nil), resp.Array[0].Text...)
+			}
+		})
 		handleScan(u, raw)
 		var sreq *simpleRequest
 		got := -1
@@ -84,6 +92,7 @@ func VfC18_Iteration() {
 		nd.Assert(vfDone(raw.done), "the client's SCAN is answered when the node answers")
 		resp := raw.Response()
 		nd.Assert(resp.Type == Array && len(resp.Array) == 2 && len(resp.Array[1].Array) == nkeys, "the node's keys are returned, no others")
+		nd.Assert(vfBytesEq(atCompletion, resp.Array[0].Text), "the reply is final when the request is completed (the cursor is not rewritten after the writer was woken)")
 		if prevResp != nil {
 			// the previous reply may still be waiting to be written (pipelined SCANs, other sessions)
 			nd.Assert(vfBytesEq(prevResp.Array[0].Text, prevCursor), "a SCAN reply keeps its cursor while later SCAN replies are converted")
